@@ -62,6 +62,8 @@ def judge_doc(case):
         for name, fn in (('str', lambda: MosFile.from_string(text)),
                          ('bytes', lambda: MosFile.from_string(raw)),
                          ('file', lambda: MosFile.from_file(path)),
+                         ('file:pathlib', lambda: MosFile.from_file(__import__('pathlib').Path(path))),
+                         ('bytearray', lambda: MosFile.from_string(bytearray(raw))),
                          ('s3', lambda: MosFile.from_s3('b', 'k/d.mos.xml'))):
             try:
                 with fake:
